@@ -263,6 +263,8 @@ def _values(seed, shape, dtype, style=None):
     v = r.randint(-16, 17, size=n).astype('float64') / 8.0
     if style == 'unit':              # angles / small magnitudes
         v = v / 4.0
+    if style == 'pos':               # positive (fractional powers stay real)
+        v = np.abs(v) + 0.5
     return v.reshape(shape)
 
 
@@ -273,6 +275,8 @@ def mk_qube(d):
     dtype = d.get('dtype', 'float')
     seed = d.get('seed', 0)
     vals = _values(seed, full, dtype, d.get('style'))
+    if d.get('style') == 'one':
+        vals = np.ones(full, dtype=vals.dtype)
     if d['cls'] == 'Matrix3' and d.get('style') == 'rot':
         # proper rotation matrices about z
         ang = _values(seed, shape, 'float')
@@ -339,6 +343,8 @@ def build(desc, built):
         return CONSTS[desc['path']]
     if k == 'py':
         return desc['v']
+    if k == 'npf':
+        return np.float64(desc['v'])
     if k == 'tuple':
         return tuple(build(x, built) for x in desc['v'])
     if k == 'list':
